@@ -5,10 +5,11 @@ use crate::{
         Namespace,
         field::as_field_name,
         helpers::{write_check_restrictions_footer, write_check_restrictions_header},
+        structures::xml_name_to_rust_name,
     },
     reader::WriteXml,
 };
-use inflector::cases::{pascalcase::to_pascal_case, snakecase::to_snake_case};
+use inflector::cases::pascalcase::to_pascal_case;
 use reqwest::Url;
 use std::{io, rc::Rc};
 
@@ -109,7 +110,7 @@ where
         writeln!(writer, "pub struct {rust_name} {{")?;
         for (part_name, header) in &soap_operation.headers {
             let field_name = as_field_name(part_name);
-            let rust_type = header.rust_type.xml_name().ok_or(WriterError::InvalidReference)?;
+            let rust_type = xml_name_to_rust_name(header.rust_type.xml_name().ok_or(WriterError::InvalidReference)?);
 
             if let Some(namespace) = header.in_namespace.as_ref() {
                 let abbreviation = namespace.abbreviation.as_str();
@@ -149,8 +150,9 @@ where
         .rust_type
         .xml_name()
         .ok_or(WriterError::InvalidReference)?;
-    let body_field_name = as_field_name(&to_snake_case(body));
+    let body_field_name = as_field_name(body);
     let xml_name = body;
+    let body = xml_name_to_rust_name(body);
 
     writeln!(writer, "#[derive(Debug, Default, YaSerialize, YaDeserialize)]")?;
 
